@@ -500,6 +500,11 @@ func (x *CommonLex) LexNum(c rune) (int, TokVal) {
 	b := x.ConstructToken(c, numMatcher, xutils.GetTokenName(xutils.NUM))
 	val, err := strconv.ParseFloat(b.String(), 10)
 
+	// A well-formed number too large for a double is, by IEEE 754 round
+	// to nearest, infinity (ParseFloat returns it together with ErrRange).
+	if ne, ok := err.(*strconv.NumError); ok && ne.Err == strconv.ErrRange {
+		err = nil
+	}
 	if err != nil {
 		x.SetError(fmt.Errorf("bad number %q", b.String()))
 		return xutils.ERR, nil
